@@ -68,6 +68,18 @@ func checkC13Pmt(c CaseC14, x *hx.Ctx) *hx.Failure {
 	m := &c.PMT
 	car := ref.Carrier{Pointer: c.Pointer, Trailing: c.Trailing}
 	payload := car.Payload(m.Section())
+	// the input's own CRC_32 may be stale (the flip is derived from the case): the output must not inherit it
+	flip := c.CRCFlip
+	if flip == 0 && (c.CC+c.Pointer+len(c.Request))%3 == 0 {
+		flip = uint32(c.CC+1) << uint(c.Pointer%28)
+	}
+	if flip != 0 {
+		end := 1 + c.Pointer + len(m.Section())
+		for i := 0; i < 4; i++ {
+			payload[end-4+i] ^= byte(flip >> uint(24-8*i))
+		}
+		x.Label("input-crc-stale")
+	}
 	pkts, err := ref.Packetise(payload, c.PID, c.CC, c.Sizes)
 	if err != nil {
 		return hx.Failf("bad-case", "packetise: %v", err)
